@@ -17,7 +17,7 @@ THEOREMS = [
     "C15_unpack_compositional_optional",
     "C15_frame_partial", "C15_frame_creation_extends", "C15_frame_history",
     "C15_lookalike_refuted", "C15_subclass_refuted", "C15_frame_subclass_refuted",
-    "C15_fieldless_member_refuted", "C15_dialect_priority_refuted",
+    "C15_fieldless_member_refuted", "C15_dialect_priority_refuted", "C15_union_order_observable",
 ]
 
 CASE_TYPE = "env * (bool * mode * option bool) * ty * val * res val"
@@ -140,7 +140,14 @@ def fixed_scenarios():
 # ---------------------------------------------------------------------------
 
 class Case:
-    __slots__ = ("sc", "env_name", "isp", "mode", "i", "v", "exp", "info", "src")
+    __slots__ = ("sc", "env_name", "isp", "mode", "i", "v", "exp", "info", "src", "t")
+
+    def __init__(self):
+        self.t = None
+
+    @property
+    def ty(self):
+        return self.t if self.t is not None else self.sc.roots[self.i]
 
 
 def collect_cases(ctx, scen_values):
@@ -148,6 +155,8 @@ def collect_cases(ctx, scen_values):
     cases = []
     defs = []
     for n, (sc, vals, src, mod) in enumerate(scen_values):
+        if sc.wide:
+            continue
         env_name = f"E{n}"
         defs.append(f"Definition {env_name} : env :=\n  {L.coq_env(sc)}.")
         for (i, v, info) in vals:
@@ -177,19 +186,82 @@ def collect_cases(ctx, scen_values):
                         c = Case()
                         c.sc, c.env_name, c.isp, c.mode, c.i, c.v, c.exp, c.info, c.src = sc, env_name, False, mode, i, d, r, info, src
                         cases.append(c)
+        # sequences of one-shot calls over equal-but-differently-ordered shape types
+        cases.extend(oneshot_history(ctx, sc, mod, src, env_name))
     return cases, "\n".join(defs)
+
+
+def member_perms(rng, ms, limit=4):
+    import itertools
+    perms = [list(p) for p in itertools.permutations(ms)]
+    rng.shuffle(perms)
+    return perms[:limit]
+
+
+def oneshot_history(ctx, sc, mod, src, env_name):
+    """encode(v, T) / decode(d, T) called one after another for shape types that compare (and hash)
+    equal but are (de)serialized differently - typing.Union ignores the order of its members in ==,
+    the codecs try them in order.  Every one-shot result must equal that of a fresh codec object for
+    the very same type object; the results also go to the correspondence (model: codec path)."""
+    import typing
+    from mashumaro.codecs.basic import BasicDecoder, BasicEncoder, decode, encode
+    out = []
+    if sc.dialect is not None:
+        return out                      # the one-shot functions take no dialect
+    for i, t in enumerate(sc.roots):
+        if t[0] != "union":
+            continue
+        perms = member_perms(ctx.rng, t[1])
+        pys = []
+        for pm in perms:
+            try:
+                pys.append(typing.Union[tuple(eval(L.py_ty(m), mod.__dict__) for m in pm)])
+            except Exception as e:
+                raise RuntimeError(f"cannot build union {pm}: {e}")
+        vals = [L.gen_value(ctx.rng, sc, t) for _ in range(2)]
+        objs = [L.build(mod, v) for v in vals]
+        wires = []
+        for o in objs:
+            r = L.call(lambda: BasicEncoder(pys[0]).encode(o))
+            if r[0] == "ok" and L.in_universe(r[1]):
+                wires += [r[1], L.mutate_wire(ctx.rng, r[1])]
+        wobjs = [L.build(mod, w) for w in wires]
+        ctx.hist("oneshot_history", f"perms={len(perms)}")
+        for pm, T in zip(perms, pys):
+            for (isp, xs, asts, one, obj) in ((True, objs, vals, lambda x, T=T: encode(x, T), lambda x, T=T: BasicEncoder(T).encode(x)),
+                                             (False, wobjs, wires, lambda x, T=T: decode(x, T), lambda x, T=T: BasicDecoder(T).decode(x))):
+                for x, ast in zip(xs, asts):
+                    r1 = L.call(lambda: one(x))
+                    r2 = L.call(lambda: obj(x))
+                    ctx.count(("oneshot", sc.sid, i, repr(pm), isp, repr(ast)), n=2)
+                    k1, k2 = res_key(r1), res_key(r2)
+                    if k1 != k2:
+                        ctx.fail(f"one-shot {'encode' if isp else 'decode'}(x, {L.py_ty(('union', pm))}) = {show(k1)} but a fresh "
+                                 f"{'BasicEncoder' if isp else 'BasicDecoder'} for the same type gives {show(k2)} "
+                                 f"(after one-shot calls for {[L.py_ty(('union', q)) for q in perms[:perms.index(pm)]]})",
+                                 {"entry": "oneshot-history", "source": src, "root": i, "perms": perms, "at": perms.index(pm),
+                                  "pack": isp, "input": ast, "values": vals, "wires": wires, "dialect": None,
+                                  "observed": show(k1), "expected": show(k2)},
+                                 {"kind": "oneshot-history"})
+                    if env_name is not None:
+                        c = Case()
+                        c.sc, c.env_name, c.isp, c.mode, c.i, c.v, c.info, c.src = sc, env_name, isp, "oneshot", i, ast, {}, src
+                        c.t = ("union", pm)
+                        c.exp = r1 if r1[0] == "ok" else L.classify_exc(r1[1])
+                        out.append(c)
+    return out
 
 
 def coq_case(c: Case) -> str:
     sc = c.sc
     dl = L.coq_optb(sc.dialect) if c.isp else "None"
     return (f"({c.env_name}, ({'true' if c.isp else 'false'}, {'Mixin' if c.mode == 'mixin' else 'Codec'}, {dl}), "
-            f"{L.coq_ty(sc.roots[c.i])}, {L.coq_val(c.v)}, {L.coq_res(c.exp)})")
+            f"{L.coq_ty(c.ty)}, {L.coq_val(c.v)}, {L.coq_res(c.exp)})")
 
 
 def describe(c: Case) -> dict:
     return {"scenario": c.sc.sid, "direction": "pack" if c.isp else "unpack", "mode": c.mode,
-            "type": L.py_ty(c.sc.roots[c.i]), "value": repr(c.v), "impl": repr(c.exp), "dialect_by_alias": c.sc.dialect}
+            "type": L.py_ty(c.ty), "value": repr(c.v), "impl": repr(c.exp), "dialect_by_alias": c.sc.dialect}
 
 
 # ---------------------------------------------------------------------------
@@ -235,11 +307,13 @@ def first_diff(sc, t, v, a, b):
                 return d
     if k == "data" and v[0] == "obj" and v[1] == t[1] and a[0] == "dict" and b[0] == "dict":
         c = sc.cls(t[1])
-        if len(a[1]) == len(b[1]) == len(c.fields) and [q[0] for q in a[1]] == [q[0] for q in b[1]]:
-            vals = dict(v[2])
-            for (fn, _, ft), (_, ax), (_, bx) in zip(c.fields, a[1], b[1]):
-                if fn in vals:
-                    d = first_diff(sc, ft, vals[fn], ax, bx)
+        # outputs are matched by key (name or alias): sort_keys / omit_none / omit_default reorder or drop entries
+        da, db, vals = dict(a[1]), dict(b[1]), dict(v[2])
+        if set(da) == set(db):
+            for (fn, al, ft) in c.fields:
+                key = fn if fn in da else al
+                if key in da and fn in vals:
+                    d = first_diff(sc, ft, vals[fn], da[key], db[key])
                     if d:
                         return d
     return (t, v)
@@ -321,14 +395,14 @@ def oracle_entry_points(ctx, sc, mod, src, cls_name, v, conforming_kind):
     outs = {k: res_key(L.call(f)) for k, f in eps.items()}
     ctx.count(("ep-pack", sc.sid, cls_name, repr(v)), n=len(outs))
     ctx.hist("oracle_kind", "pack:" + conforming_kind)
-    compat = sc.dialect in (None, 'unset') or all(k.by_alias is None or k.by_alias == sc.dialect for k in sc.classes)
+    compat = sc.dialect in (None, 'unset', 'strategy') or all(k.by_alias is None or k.by_alias == sc.dialect for k in sc.classes)
     names = list(outs)
     ref = names[0]
     for k in names[1:]:
         if outs[k] != outs[ref]:
             a_mix = ("to_dict" in ref)
             sig = {"kind": "unclassified"}
-            if not compat:
+            if not compat and outs[ref][0] == "ok" and outs[k][0] == "ok":
                 sig = {"kind": "dialect-priority"}       # documented precedence, not a finding: skipped
             elif outs[ref][0] == "ok" and outs[k][0] == "ok" and a_mix:
                 sig = signature_of(sc, ("data", cls_name), v, outs[ref], outs[k])
@@ -337,6 +411,8 @@ def oracle_entry_points(ctx, sc, mod, src, cls_name, v, conforming_kind):
             if sig["kind"] == "dialect-priority":
                 ctx.hist("oracle_kind", "skipped:dialect-priority")
                 continue
+            mix, oth = (outs[ref], outs[k]) if "to_dict" in ref and outs[ref][0] == "err" else (outs[k], outs[ref])
+            sig = (trap_sig(sc, ("data", cls_name), mix, oth) if ("to_dict" in ref or "to_dict" in k) else None) or sig
             ctx.fail(f"entry points disagree on {cls_name}: {ref} = {show(outs[ref])} but {k} = {show(outs[k])}",
                      {"entry": "entry-points-pack", "source": src, "class": cls_name, "value": v, "dialect": sc.dialect,
                       "a": ref, "b": k, "observed_a": show(outs[ref]), "observed_b": show(outs[k]),
@@ -383,7 +459,9 @@ def oracle_entry_points(ctx, sc, mod, src, cls_name, v, conforming_kind):
                          {"entry": "entry-points-unpack", "source": src, "class": cls_name, "wire": d, "dialect": sc.dialect,
                           "a": names[0], "b": k, "observed_a": show(douts[names[0]]), "observed_b": show(douts[k]),
                           "expected": "identical results"},
-                         {"kind": "unclassified-unpack"})
+                         (trap_sig(sc, ("data", cls_name), *((douts[names[0]], douts[k]) if "from_dict" in names[0] and douts[names[0]][0] == "err"
+                                                              else (douts[k], douts[names[0]])))
+                          if ("from_dict" in names[0] or "from_dict" in k) else None) or {"kind": "unclassified-unpack"})
                 break
     # Optional[D] and None
     r = L.call(lambda: (BasicDecoder(Optional[D], **kw).decode(None), BasicEncoder(Optional[D], **kw).encode(None)))
@@ -404,7 +482,11 @@ def oracle_compositional(ctx, sc, mod, src, i, vals):
     functions equal the codec objects"""
     from mashumaro.codecs.basic import BasicDecoder, BasicEncoder, decode, encode
     from typing import Dict, List, Optional, Tuple
+    import typing
     T = mod.ROOTS[i]
+    if not (typing.get_args(List[T])[0] is T and typing.get_args(Dict[str, T])[1] is T and typing.get_args(Tuple[T, T])[0] is T):
+        ctx.hist("oracle_kind", "skipped:typing-interned-an-equal-composite")
+        return      # List[T] would be an older, equal-but-differently-ordered object (typing cache)
     Dl = dl_of(sc, mod)
     kw = {"default_dialect": Dl} if Dl else {}
     objs = [L.build(mod, v) for v in vals]
@@ -463,7 +545,40 @@ def oracle_compositional(ctx, sc, mod, src, i, vals):
 # ---- frame: creating codecs / subclasses in between changes nothing ---------------------
 
 CREATIONS = ["codec-same", "codec-list", "codec-dialect", "codec-related", "oneshot", "subclass-mixin",
-             "subclass-plain", "subclass-with-field", "decoder-same", "codec-union"]
+             "subclass-plain", "subclass-with-field", "decoder-same", "codec-union",
+             "codec-strategy-dialect", "codec-format", "codec-format"]
+
+FORMAT_CODECS = [("MessagePackEncoder", "MessagePackDecoder"), ("ORJSONEncoder", "ORJSONDecoder"),
+                 ("JSONEncoder", "JSONDecoder"), ("YAMLEncoder", "YAMLDecoder"), ("TOMLEncoder", "TOMLDecoder")]
+
+
+def frame_namespace():
+    """names available to creation statements"""
+    from typing import Dict, List, Optional, Tuple, Union
+    from mashumaro.codecs.basic import BasicDecoder, BasicEncoder, decode, encode
+    from mashumaro.codecs.json import JSONDecoder, JSONEncoder
+    from mashumaro.codecs.msgpack import MessagePackDecoder, MessagePackEncoder
+    from mashumaro.codecs.orjson import ORJSONDecoder, ORJSONEncoder
+    from mashumaro.codecs.toml import TOMLDecoder, TOMLEncoder
+    from mashumaro.codecs.yaml import YAMLDecoder, YAMLEncoder
+    return dict(locals())
+
+
+def bind_frame_names(sc, mod):
+    """_x_<cls>: an exact instance, _w_<cls>: its wire form - what freshly created codecs are USED on
+    (a codec that is only created never runs its lazily compiled parts)"""
+    from mashumaro.codecs.basic import BasicEncoder
+    for c in sc.classes:
+        o = L.build(mod, default_value(sc, c.name))
+        mod.__dict__[f"_x_{c.name}"] = o
+        r = L.call(lambda: BasicEncoder(getattr(mod, c.name)).encode(o))
+        mod.__dict__[f"_w_{c.name}"] = L.build(mod, r[1]) if r[0] == "ok" and L.in_universe(r[1]) else {}
+
+
+def with_uses(stmt, uses):
+    body = "".join(f"\ntry:\n    {u}\nexcept Exception:\n    pass" for u in uses)
+    return stmt + body
+
 
 
 def creation_src(kind, sc, cls_name, n, rng):
@@ -471,22 +586,47 @@ def creation_src(kind, sc, cls_name, n, rng):
     c = sc.cls(cls_name)
     others = [k.name for k in sc.classes]
     o = rng.choice(others)
+    x, w, xo, wo = f"_x_{cls_name}", f"_w_{cls_name}", f"_x_{o}", f"_w_{o}"
     if kind == "codec-same":
-        return f"_e{n} = BasicEncoder({cls_name}); _d{n} = BasicDecoder({cls_name})"
+        return with_uses(f"_e{n} = BasicEncoder({cls_name}); _d{n} = BasicDecoder({cls_name})",
+                         [f"_e{n}.encode({x})", f"_d{n}.decode({w})"])
     if kind == "codec-list":
-        return f"_e{n} = BasicEncoder(List[{cls_name}]); _d{n} = BasicDecoder(Dict[str, {cls_name}])"
+        return with_uses(f"_e{n} = BasicEncoder(List[{cls_name}]); _d{n} = BasicDecoder(Dict[str, {cls_name}])",
+                         [f"_e{n}.encode([{x}])", f"_d{n}.decode({{'k': {w}}})"])
     if kind == "codec-dialect":
-        return (f"class _Dl{n}(Dialect):\n    serialize_by_alias = {rng.choice([True, False])}\n    omit_none = True\n"
-                f"_e{n} = BasicEncoder({rng.choice(['List[%s]' % cls_name, cls_name, 'Optional[%s]' % cls_name])}, default_dialect=_Dl{n})\n"
-                f"_d{n} = BasicDecoder({cls_name}, default_dialect=_Dl{n})")
+        shape, arg = rng.choice([("List[%s]" % cls_name, f"[{x}]"), (cls_name, x), ("Optional[%s]" % cls_name, x)])
+        return with_uses(f"class _Dl{n}(Dialect):\n    serialize_by_alias = {rng.choice([True, False])}\n    omit_none = True\n"
+                         f"_e{n} = BasicEncoder({shape}, default_dialect=_Dl{n})\n"
+                         f"_d{n} = BasicDecoder({cls_name}, default_dialect=_Dl{n})",
+                         [f"_e{n}.encode({arg})", f"_d{n}.decode({w})"])
+    if kind == "codec-strategy-dialect":
+        # a default dialect that changes how leaf types are rendered
+        strat = rng.choice(["date: {'serialize': date.toordinal, 'deserialize': date.fromordinal}",
+                            "int: {'serialize': str, 'deserialize': int}",
+                            "str: {'serialize': (lambda s: s[::-1]), 'deserialize': (lambda s: s[::-1])}",
+                            "date: {'serialize': date.toordinal, 'deserialize': date.fromordinal}, int: {'serialize': str}"])
+        shape, arg = rng.choice([("List[%s]" % cls_name, f"[{x}]"), (cls_name, x), ("Dict[str, %s]" % cls_name, f"{{'k': {x}}}")])
+        return with_uses(f"class _Dl{n}(Dialect):\n    serialization_strategy = {{{strat}}}\n"
+                         f"_e{n} = BasicEncoder({shape}, default_dialect=_Dl{n})\n"
+                         f"_d{n} = BasicDecoder({cls_name}, default_dialect=_Dl{n})",
+                         [f"_e{n}.encode({arg})", f"_d{n}.decode(BasicEncoder({cls_name}, default_dialect=_Dl{n}).encode({x}))"])
+    if kind == "codec-format":
+        # format codecs always carry a default dialect of their own
+        enc, dec = rng.choice(FORMAT_CODECS)
+        return with_uses(f"_e{n} = {enc}({cls_name}); _d{n} = {dec}({cls_name})",
+                         [f"_d{n}.decode(_e{n}.encode({x}))", f"{enc}(List[{o}]).encode([{xo}])"])
     if kind == "codec-related":
-        return f"_e{n} = BasicEncoder(Tuple[{o}, {cls_name}]); _d{n} = BasicDecoder(Optional[{o}])"
+        return with_uses(f"_e{n} = BasicEncoder(Tuple[{o}, {cls_name}]); _d{n} = BasicDecoder(Optional[{o}])",
+                         [f"_e{n}.encode(({xo}, {x}))", f"_d{n}.decode({wo})"])
     if kind == "codec-union":
-        return f"_e{n} = BasicEncoder(Union[{cls_name}, {o}, int]); _d{n} = BasicDecoder(Union[{o}, {cls_name}])"
+        return with_uses(f"_e{n} = BasicEncoder(Union[{cls_name}, {o}, int]); _d{n} = BasicDecoder(Union[{o}, {cls_name}])",
+                         [f"_e{n}.encode({x})", f"_e{n}.encode({xo})", f"_d{n}.decode({w})"])
     if kind == "oneshot":
-        return f"try:\n    encode(None, Optional[{cls_name}]); decode([], List[{o}])\nexcept Exception:\n    pass"
+        return with_uses("pass", [f"encode(None, Optional[{cls_name}])", f"decode([], List[{o}])", f"encode({x}, {cls_name})",
+                                  f"decode({wo}, {o})"])
     if kind == "decoder-same":
-        return f"_d{n} = BasicDecoder({cls_name}); _dd{n} = BasicDecoder(List[{o}])"
+        return with_uses(f"_d{n} = BasicDecoder({cls_name}); _dd{n} = BasicDecoder(List[{o}])",
+                         [f"_d{n}.decode({w})", f"_dd{n}.decode([{wo}])"])
     cfg = ""
     if sc.dialect is not None:
         cfg = ("\n    class Config(BaseConfig):\n        code_generation_options = [ADD_DIALECT_SUPPORT]\n"
@@ -504,18 +644,57 @@ def creation_src(kind, sc, cls_name, n, rng):
     raise ValueError(kind)
 
 
+DIALECT_CODEC_SWEEP = [
+    "class _Dl{n}(Dialect):\n    serialize_by_alias = True\n_e{n} = BasicEncoder({T}, default_dialect=_Dl{n}); _d{n} = BasicDecoder({T}, default_dialect=_Dl{n})",
+    "class _Dl{n}(Dialect):\n    serialize_by_alias = False\n    omit_none = True\n_e{n} = BasicEncoder({T}, default_dialect=_Dl{n}); _d{n} = BasicDecoder({T}, default_dialect=_Dl{n})",
+    "class _Dl{n}(Dialect):\n    serialization_strategy = {{date: {{'serialize': date.toordinal, 'deserialize': date.fromordinal}}, "
+    "int: {{'serialize': str, 'deserialize': int}}, str: {{'serialize': (lambda s: s[::-1]), 'deserialize': (lambda s: s[::-1])}}}}\n"
+    "_e{n} = BasicEncoder({T}, default_dialect=_Dl{n}); _d{n} = BasicDecoder({T}, default_dialect=_Dl{n})",
+    "_e{n} = ORJSONEncoder({T}); _d{n} = ORJSONDecoder({T})",
+    "_e{n} = TOMLEncoder({T}); _d{n} = TOMLDecoder({T})",
+    "_e{n} = MessagePackEncoder({T}); _d{n} = MessagePackDecoder({T})",
+]
+
+
+def frame_sweep_creations(sc):
+    """for every class whose Config changes how/when it is compiled: every kind of codec that carries a default dialect,
+    created AND used on an instance (deterministic counterpart of the random histories)"""
+    out = []
+    n = 100
+    for c in sc.classes:
+        if not c.extra:
+            continue
+        for tmpl in DIALECT_CODEC_SWEEP:
+            stmt = tmpl.format(n=n, T=c.name)
+            out.append(with_uses(stmt, [f"_x_enc{n} = _e{n}.encode(_x_{c.name})", f"_d{n}.decode(_x_enc{n})",
+                                        f"_d{n}.decode(_w_{c.name})"]))
+            n += 1
+    return out
+
+
 def oracle_frame(ctx, sc, src, vals_by_root, steps):
     """results of existing classes and existing codec objects before == after creating further
     codecs and subclasses (fresh module so that nothing is pre-created)"""
     from mashumaro.codecs.basic import BasicDecoder, BasicEncoder, decode, encode
     mod = L.load_module(src, "frame" + str(sc.sid))
     try:
-        from typing import Dict, List, Optional, Tuple, Union
-        mod.__dict__.update(BasicEncoder=BasicEncoder, BasicDecoder=BasicDecoder, encode=encode, decode=decode,
-                            Union=Union)
+        mod.__dict__.update(frame_namespace())
+        bind_frame_names(sc, mod)
         Dl = dl_of(sc, mod)
         kw = {"default_dialect": Dl} if Dl else {}
         probes = []     # (description, thunk, root index, value)
+        for i, vals in vals_by_root.items():
+            t = sc.roots[i]
+            if t[0] == "data" and sc.cls(t[1]).mixin:
+                # the class's OWN methods
+                D = getattr(mod, t[1])
+                for v in vals:
+                    if v[0] != "obj" or v[1] != t[1]:
+                        continue
+                    o = L.build(mod, v)
+                    probes.append((f"own {t[1]}.to_dict()", (lambda o=o: o.to_dict(dialect=Dl) if Dl else o.to_dict()), i, v))
+                    w = mod.__dict__[f"_w_{t[1]}"]
+                    probes.append((f"own {t[1]}.from_dict(wire of the class)", (lambda D=D, w=w: D.from_dict(w, dialect=Dl) if Dl else D.from_dict(w)), i, v))
         for i, vals in vals_by_root.items():
             T = mod.ROOTS[i]
             W = getattr(mod, f"W{i}")
@@ -532,10 +711,19 @@ def oracle_frame(ctx, sc, src, vals_by_root, steps):
                     probes.append((f"existing BasicDecoder({L.py_ty(sc.roots[i])}).decode(d)", (lambda dec=dec, w=w: dec.decode(w)), i, r[1]))
         before = [res_key(L.call(p[1])) for p in probes]
         log = []
-        for n in range(steps):
+        sweep = frame_sweep_creations(sc)
+        for n in range(steps + len(sweep)):
             kind = ctx.rng.choice(CREATIONS)
             cn = ctx.rng.choice([c.name for c in sc.classes])
+            # classes whose Config changes HOW/WHEN methods are compiled are the interesting targets of creations that
+            # compile with another (default) dialect: half of the steps aim there
+            special = [c.name for c in sc.classes if c.extra]
+            if special and n % 2 == 0:
+                cn = ctx.rng.choice(special)
+                kind = ctx.rng.choice(["codec-strategy-dialect", "codec-format", "codec-dialect", "subclass-mixin"])
             stmt = creation_src(kind, sc, cn, n, ctx.rng)
+            if n >= steps:
+                kind, stmt = "sweep:codec-with-default-dialect", sweep[n - steps]
             try:
                 exec(stmt, mod.__dict__)
                 log.append(stmt)
@@ -546,11 +734,12 @@ def oracle_frame(ctx, sc, src, vals_by_root, steps):
             if kind in ("subclass-mixin", "subclass-with-field"):
                 bad = fresh_subclass_agrees(ctx, sc, mod, cn, n, Dl, kw, vals_by_root)
                 if bad:
-                    ctx.fail(f"fresh subclass _S{n}({cn}) disagrees through its entry points: {bad}",
+                    ctx.fail(f"fresh subclass _S{n}({cn}) disagrees through its entry points: {bad[0]}",
                              {"entry": "frame-fresh-subclass", "source": src, "class": cn, "dialect": sc.dialect,
-                              "creations": list(log), "observed": bad, "expected": "to_dict == BasicEncoder(S).encode"},
-                             {"kind": "frame-fresh-subclass"})
-                    return
+                              "creations": list(log), "observed": bad[0], "expected": "to_dict == BasicEncoder(S).encode"},
+                             bad[1])
+                    if bad[1]["kind"] == "frame-fresh-subclass":
+                        return
             after = [res_key(L.call(p[1])) for p in probes]
             ctx.count(("frame", sc.sid, n, kind), n=len(probes))
             for p, b, a in zip(probes, before, after):
@@ -562,6 +751,9 @@ def oracle_frame(ctx, sc, src, vals_by_root, steps):
                     # is a class creation that annotated that plain subclass
                     if kind == "subclass-with-field" and "to_dict" in p[0] and has_plain_strict_sub(sc, sc.roots[p[2]], v):
                         sig = {"kind": "subclass-creation-installs-method"}
+                    if "to_dict" in p[0] or "from_dict" in p[0]:
+                        # a mixin probe that failed BEFORE (first call with dialect=) and works after something compiled
+                        sig = trap_sig(sc, sc.roots[p[2]], b, a) or sig
                     ctx.fail(f"creating {kind} changed {p[0]}: before {show(b)} after {show(a)}",
                              {"entry": "frame", "source": src, "root": p[2], "value": v, "probe": p[0], "dialect": sc.dialect,
                               "creations": list(log), "observed": show(a), "expected": show(b)},
@@ -578,7 +770,7 @@ def fresh_subclass_agrees(ctx, sc, mod, cn, n, Dl, kw, vals_by_root):
     from mashumaro.codecs.basic import BasicEncoder
     S = mod.__dict__.get(f"_S{n}")
     base = getattr(mod, cn)
-    compat = sc.dialect in (None, "unset") or all(k.by_alias is None or k.by_alias == sc.dialect for k in sc.classes)
+    compat = sc.dialect in (None, "unset", "strategy") or all(k.by_alias is None or k.by_alias == sc.dialect for k in sc.classes)
     if S is None or not compat:
         return None
     for i, vals in vals_by_root.items():
@@ -594,11 +786,51 @@ def fresh_subclass_agrees(ctx, sc, mod, cn, n, Dl, kw, vals_by_root):
             c = res_key(L.call(lambda: o.to_dict(dialect=Dl) if Dl else o.to_dict())) if sc.cls(cn).mixin else None
             d = res_key(L.call(lambda: BasicEncoder(base, **kw).encode(o)))
             ctx.count(("fresh-sub", sc.sid, cn, n), n=4)
+            if (a != b and trap_sig(sc, ("data", cn), a, b)) or (c is not None and c != d and trap_sig(sc, ("data", cn), c, d)):
+                ctx.hist("oracle_kind", "skipped:lazy-dialect-first-call(fresh subclass)")
+                return None
             if a != b:
-                return f"_S{n}.to_dict = {show(a)} but BasicEncoder(_S{n}).encode = {show(b)}"
+                # the known static-dispatch findings can sit in the inherited fields (classified at the base class)
+                sig = signature_of(sc, ("data", cn), v, a, b) if a[0] == "ok" and b[0] == "ok" else {"kind": "frame-fresh-subclass"}
+                if sig.get("kind") in ("unclassified", "none"):
+                    sig = {"kind": "frame-fresh-subclass"}
+                return (f"_S{n}.to_dict = {show(a)} but BasicEncoder(_S{n}).encode = {show(b)}", sig)
             if c is not None and c != d:
-                return f"after calling the subclass: {cn}.to_dict = {show(c)} but BasicEncoder({cn}).encode = {show(d)}"
+                return (f"after calling the subclass: {cn}.to_dict = {show(c)} but BasicEncoder({cn}).encode = {show(d)}",
+                        {"kind": "frame-fresh-subclass"})
             return None
+    return None
+
+
+def effective_lazy(c) -> bool:
+    if c.own_config:
+        return c.extra.get("lazy_compilation") == "True"
+    return effective_lazy(c.parent) if c.parent else False
+
+
+def lazy_dialect_trap(sc, t, seen=None) -> bool:
+    """t reaches a lazily compiled class with a field annotated by a PLAIN dataclass"""
+    seen = set() if seen is None else seen
+    for n in L.data_names(t):
+        if n in seen:
+            continue
+        seen.add(n)
+        c = sc.cls(n)
+        for (_, _, ft) in c.fields:
+            if effective_lazy(c) and any(not sc.cls(k).mixin for k in L.data_names(ft)):
+                return True
+            if lazy_dialect_trap(sc, ft, seen):
+                return True
+    return False
+
+
+def trap_sig(sc, t, mixin_outcome, other_outcome):
+    """known finding C15/lazy-dialect-first-call: calls carry `dialect=`, the type reaches a lazy class with a plain
+    dataclass field, and the MIXIN entry point fails (AttributeError: no __mashumaro_to_dict__/__mashumaro_from_dict__
+    on the nested class, possibly wrapped) where the other entry point does not fail the same way"""
+    if sc.dialect is not None and sc.lazy and mixin_outcome[0] == "err" and mixin_outcome != other_outcome \
+            and lazy_dialect_trap(sc, t):
+        return {"kind": "lazy-dialect-first-call"}
     return None
 
 
@@ -636,7 +868,13 @@ def run(ctx: vlib.Ctx):
         "Config.serialize_by_alias, optional dialect with ADD_DIALECT_SUPPORT everywhere) + root types over "
         "int/str/date/List/Dict[str,.]/Tuple/Optional/Union/dataclass + generated values (exact classes; strict-subclass "
         "instances at a low rate; unrelated instances only for the correspondence); distinct = (scenario, root type, value, "
-        "entry point set); non-trivial = at least one dataclass position")
+        "entry point set); non-trivial = at least one dataclass position. Further dimensions: look-alike 'twin' classes and all "
+        "member permutations of their unions in sequences of one-shot calls; Config.lazy_compilation / allow_postponed_evaluation "
+        "(inside the Coq-tied scenarios) and 'wide' scenarios (omit_none, omit_default, sort_keys, forbid_extra_keys, "
+        "allow_deserialization_not_by_alias, kw_only + defaults, ADD_SERIALIZATION_CONTEXT, strategy dialects) for the oracles; "
+        "format family: msgpack/orjson/json/yaml/toml mixins vs Encoder/Decoder/one-shot functions over int/str/bool/date/datetime/"
+        "time/UUID/bytes/bytearray with user dialects (call-time or Config.dialect) whose strategies and options overlap the "
+        "format's built-in dialect")
     ctx.trusted += [
         "C15: harness/c15lib.py materialiser (Python source of the class table and the Coq env denote the same schema; "
         "predicted_has_method = which plain classes own __mashumaro_to_dict__), canonicaliser and exception reduction "
@@ -647,6 +885,12 @@ def run(ctx: vlib.Ctx):
         "C15 frame model: the state is the class table with the per-class flag 'owns __mashumaro_to_dict__'; codec creation is "
         "modelled as leaving the table untouched (holders are private to the codec) - the real holders are exercised only by "
         "the frame oracle",
+    ]
+    ctx.trusted += [
+        "C15 format family / lazy compilation / Config options other than serialize_by_alias are outside the Coq model: covered by "
+        "the oracles only (format libraries msgpack, orjson, json, yaml, tomli_w/tomllib are oracles)",
+        "typing interns parametrised generics by equal arguments (List[Union[A,B]] is List[Union[B,A]]): modules in which the "
+        "type objects do not have the generated member order are dropped (stated predicate module_matches_scenario)",
     ]
     ctx.assumptions += [
         "C15_agree_partial: every dataclass instance has exactly the annotated class (union: one member's class), unions "
@@ -668,22 +912,46 @@ def run(ctx: vlib.Ctx):
                 info = {}
                 flavour = ctx.rng.random()
                 sub_p, junk_p = (0.0, 0.0) if flavour < 0.7 else ((0.3, 0.0) if flavour < 0.88 else (0.1, 0.25))
+                if sc.lazy or sc.dialect is not None:
+                    # a lazy stub compiles for self.__class__, and with `dialect=` the inherited method looks the packer up
+                    # in self.__class__'s (possibly INHERITED) dialect cache: what a strict-subclass instance dispatches to
+                    # then depends on which class was called first (C14 territory, same family as the known finding
+                    # subclass-creation-installs-method) - these scenarios keep exact classes
+                    sub_p, junk_p = 0.0, junk_p if not sc.lazy else 0.0
                 v = L.gen_value(ctx.rng, sc, t, sub_p, junk_p, info)
                 vals.append((i, v, info))
+        scen.append((sc, vals))
+    # wide scenarios: Config options outside the Coq model (omit_none, omit_default, sort_keys, forbid_extra_keys,
+    # allow_deserialization_not_by_alias, lazy_compilation, code generation flags, defaults, kw_only, strategy
+    # dialects): no correspondence, but every oracle
+    for s in range(ctx.budget(5, 30)):
+        sc = L.gen_scenario(ctx.rng, f"w{s}", wide=True)
+        vals = []
+        for i, t in enumerate(sc.roots):
+            for _ in range(ctx.rng.randint(2, 3)):
+                vals.append((i, L.gen_value(ctx.rng, sc, t), {}))
         scen.append((sc, vals))
 
     loaded = []
     for (sc, vals) in scen:
         src = L.scenario_src(sc)
         mod = L.load_module(src, str(sc.sid))
+        if not module_matches_scenario(sc, mod):
+            ctx.hist("scenario", "dropped:typing-interned-a-reordered-union")
+            L.unload_module(mod)
+            continue
         loaded.append((sc, vals, src, mod))
-        ctx.hist("scenario", "dialect" if sc.dialect is not None else "no-dialect")
+        ctx.hist("scenario", ("wide:" if sc.wide else "") + ("lazy:" if sc.lazy else "") + ("dialect" if sc.dialect is not None else "no-dialect"))
+        if sc.wide:
+            for c in sc.classes:
+                for k in c.extra:
+                    ctx.hist("wide_config_option", k)
 
     # ---------------- (M) correspondence
     cases, defs = collect_cases(ctx, loaded)
     for c in cases:
         ctx.hist("corr_case", ("pack" if c.isp else "unpack") + ":" + c.mode + ":" + c.exp[0] + ("" if c.exp[0] == "ok" else ":" + c.exp[1]))
-        ctx.hist("root_shape", c.sc.roots[c.i][0])
+        ctx.hist("root_shape", c.ty[0])
     coq_cases = [coq_case(c) for c in cases]
     bad, log = vlib.coq_bad_idx("c15_corr", "C15Model", "", defs, coq_cases, OK_FUN, CASE_TYPE, shard=300,
                                 needs=["theories/C15Model.vo"])
@@ -723,10 +991,10 @@ def run(ctx: vlib.Ctx):
         if cm.info.get("junk"):
             continue            # not a conforming value: outside the property (kept for the correspondence only)
         sc = cm.sc
-        compat = sc.dialect in (None, 'unset') or all(q.by_alias is None or q.by_alias == sc.dialect for q in sc.classes)
-        if not compat and not in_dom:
+        compat = sc.dialect in (None, 'unset', 'strategy') or all(q.by_alias is None or q.by_alias == sc.dialect for q in sc.classes)
+        if not compat and not in_dom and a[0] == "ok" and b[0] == "ok":
             ctx.hist("agree_domain", "skipped:dialect-priority")
-            continue            # documented precedence of call dialect vs default dialect
+            continue            # documented precedence of call dialect vs default dialect (keys differ, both succeed)
         sig = {"kind": "in-theorem-domain"} if in_dom else signature_of(sc, sc.roots[cm.i], cm.v, cm.exp, cc.exp)
         ctx.fail(f"mixin path and codec path disagree for {L.py_ty(sc.roots[cm.i])}: W(f=v).to_dict()['f'] = {show(cm.exp)} "
                  f"but BasicEncoder(T).encode(v) = {show(cc.exp)}",
@@ -749,6 +1017,8 @@ def run(ctx: vlib.Ctx):
 
     # ---------------- oracle 2: the whole list of entry points per dataclass value; compositionality
     for (sc, vals, src, mod) in loaded:
+        if sc.wide:
+            oneshot_history(ctx, sc, mod, src, None)
         by_root = {}
         for (i, v, info) in vals:
             if info.get("junk"):
@@ -764,7 +1034,7 @@ def run(ctx: vlib.Ctx):
                 oracle_compositional(ctx, sc, mod, src, i, exact_vals[:3])
 
     # ---------------- oracle 3: frame (fresh modules)
-    fsel = loaded if not ctx.quick() else loaded[:5] + loaded[5::2]
+    fsel = loaded if not ctx.quick() else [x for k, x in enumerate(loaded) if k < 5 or k % 2 == 1 or any(c.extra for c in x[0].classes)]
     for (sc, vals, src, mod) in fsel:
         by_root = {}
         for (i, v, info) in vals:
@@ -776,6 +1046,10 @@ def run(ctx: vlib.Ctx):
 
     for (sc, vals, src, mod) in loaded:
         L.unload_module(mod)
+
+    # ---------------- oracle 4: format mixins vs format codecs under user dialects (outside the Coq model)
+    from harness import c15fmt
+    c15fmt.run_format_family(ctx, ctx.budget(60, 300))
 
     # ---------------- a broken tie aims the search at the disagreement
     if corr_bad and not ctx.failures:
@@ -800,6 +1074,11 @@ def replay(rep: dict) -> int:
     if rep.get("kind") == "no-failing-input-found":
         print("nothing to replay: the run found no failing input (see not_shown)")
         return 0
+    if entry == "format-family":
+        from harness import c15fmt
+        rc = c15fmt.replay_format(rep)
+        print("REPRODUCED" if rc else "not reproduced")
+        return rc
 
     def tup(x):
         if isinstance(x, list):
@@ -865,7 +1144,27 @@ def replay(rep: dict) -> int:
             for f in ctx.failures:
                 print(f.what)
             rc = 1 if ctx.failures else 0
+        elif entry == "oneshot-history":
+            import typing
+            perms = [[tup(m) if isinstance(m, list) else m for m in pm] for pm in rep["perms"]]
+
+            def ty(m):
+                return tuple(m) if m[0] != "data" else ("data", m[1])
+            perms = [[tuple(m) if not isinstance(m, tuple) else m for m in pm] for pm in rep["perms"]]
+            pys = [typing.Union[tuple(eval(L.py_ty(m), mod.__dict__) for m in pm)] for pm in perms]
+            xs = [L.build(mod, tup(v)) for v in (rep["values"] if rep["pack"] else rep["wires"])]
+            rc = 0
+            for T in pys:
+                for x in xs:
+                    a = res_key(L.call(lambda: encode(x, T) if rep["pack"] else decode(x, T)))
+                    b = res_key(L.call(lambda: (BasicEncoder(T).encode(x) if rep["pack"] else BasicDecoder(T).decode(x))))
+                    if a != b:
+                        print("one-shot:", show(a)); print("object  :", show(b), "for", T)
+                        rc = 1
         elif entry == "frame":
+            sc_ = scenario_from_module(mod, rep)
+            mod.__dict__.update(frame_namespace())
+            bind_frame_names(sc_, mod)
             i = rep["root"]
             v = tup(rep["value"])
             o = L.build(mod, v)
@@ -883,6 +1182,14 @@ def replay(rep: dict) -> int:
                 if "BasicEncoder" in probe:
                     return enc.encode(o)
                 return dec.decode(o)
+            if probe.startswith("own "):
+                wire = mod.__dict__.get("_w_" + probe.split()[1].split(".")[0])
+                D = type(o)
+
+                def run_probe():  # noqa: F811
+                    if "to_dict" in probe:
+                        return o.to_dict(dialect=Dl) if Dl else o.to_dict()
+                    return D.from_dict(wire, dialect=Dl) if Dl else D.from_dict(wire)
             before = res_key(L.call(run_probe))
             for stmt in rep["creations"]:
                 exec(stmt, mod.__dict__)
@@ -910,6 +1217,52 @@ def replay(rep: dict) -> int:
         L.unload_module(mod)
     print("REPRODUCED" if rc else "not reproduced")
     return rc
+
+
+def py_to_ast(tp):
+    """python type object -> type AST (member ORDER as the object really has it)"""
+    import dataclasses as dc
+    import typing
+    if tp is int:
+        return ("int",)
+    if tp is str:
+        return ("str",)
+    if tp is datetime.date:
+        return ("date",)
+    if dc.is_dataclass(tp):
+        return ("data", tp.__name__)
+    o = typing.get_origin(tp)
+    a = typing.get_args(tp)
+    if o is list:
+        return ("list", py_to_ast(a[0]))
+    if o is dict:
+        return ("dict", py_to_ast(a[1]))
+    if o is tuple:
+        return ("tuple", [py_to_ast(x) for x in a])
+    if o is typing.Union:
+        if len(a) == 2 and type(None) in a:
+            return ("opt", py_to_ast([x for x in a if x is not type(None)][0]))
+        return ("union", [py_to_ast(x) for x in a])
+    raise ValueError(tp)
+
+
+def module_matches_scenario(sc, mod) -> bool:
+    """typing interns parametrised generics by EQUAL arguments and Union[A,B] == Union[B,A]: the second of
+    List[Union[A,B]] / List[Union[B,A]] in one process silently is the first.  Such a module does not denote
+    the generated schema (nothing mashumaro can see), so the scenario is dropped."""
+    import typing
+    try:
+        for i, t in enumerate(sc.roots):
+            if py_to_ast(mod.ROOTS[i]) != t:
+                return False
+        for c in sc.classes:
+            hints = typing.get_type_hints(getattr(mod, c.name), mod.__dict__)
+            for (fn, _, ft) in c.fields:
+                if py_to_ast(hints[fn]) != ft:
+                    return False
+    except Exception:
+        return False
+    return True
 
 
 def scenario_from_module(mod, rep):
